@@ -10,9 +10,19 @@ NAME = "PnConsts"
 def generate(g):
     from xlate import lean_header
     num = "qbase/src/packet/number.rs"
-    # encode: which integer cast fills which variant  (`Self::U24(pn as u32)` keeps 32 bits!)
-    for v in ("8", "16", "24", "32"):
+    # encode: which integer cast fills which variant; the U24 variant is a u32 and must be masked to 24 bits
+    # (`Self::U24(pn as u32 & 0x00ff_ffff)`, fix-C07-u24-mask).  The unmasked shape `Self::U24(pn as u32)` is
+    # still recognised and translated as "mask = all 32 bits", so that on such a tree the Lean proofs fail
+    # (decode_encode_inmem) instead of the translator merely refusing.
+    import re
+    from xlate import read
+    for v in ("8", "16", "32"):
         g.const(f"pnCast{v}", num, r"Self::U%s\(pn as u(\d+)\)" % v)
+    g.const("pnCast24", num, r"Self::U24\(pn as u(\d+)(?: & 0x[0-9a-fA-F_]+)?\)")
+    if re.search(r"Self::U24\(pn as u32\)", read(g.repo, num)):
+        g.items.append(("pnMask24", 2 ** 32 - 1, f"{num}: `Self::U24(pn as u32)` (NO mask: all 32 bits kept)"))
+    else:
+        g.const("pnMask24", num, r"Self::U24\(pn as u32 & (0x[0-9a-fA-F_]+)\)")
     # decode: (truncated, nbits) table and the half window
     for v in ("8", "16", "24", "32"):
         g.const(f"pnBits{v}", num, r"U%s\(x\) => \(u64::from\(x\), (\d+)\)" % v)
